@@ -266,6 +266,35 @@ APPEND(skip_lane_copy_,i):
                                 %%TMP_XMM_12, %%TMP_XMM_13, %%TMP_XMM_14, \
                                 %%TMP_XMM_15, state
 
+%ifdef SAFE_DATA
+        ;; LFSR/FSM state and keystream on the stack are not needed
+        ;; after the 5 keystream words have been generated - clear them
+        pxor    %%TMP_XMM_0, %%TMP_XMM_0
+%assign i 0
+%rep (16 + 3)
+        movdqa  [state + _snow3g_args_LFSR_0 + i*64], %%TMP_XMM_0
+%assign i (i+1)
+%endrep
+%assign i 0
+%rep 4
+        movdqa  [rsp + _keystream + i*16], %%TMP_XMM_0
+%assign i (i+1)
+%endrep
+        ;; clear keystream generated for empty lanes (copies of a valid lane)
+        mov     DWORD(%%TGP0), DWORD(init_lanes)
+        not     DWORD(%%TGP0)
+        and     DWORD(%%TGP0), 0xf
+%%clear_ks_uia2:
+        bsf     DWORD(%%TGP1), DWORD(%%TGP0)
+        jz      %%clear_ks_done_uia2
+        btr     DWORD(%%TGP0), DWORD(%%TGP1)
+        shl     DWORD(%%TGP1), 5 ;; ks stored at 32 byte offsets
+        movdqa  [state + _snow3g_ks + %%TGP1], %%TMP_XMM_0
+        movdqa  [state + _snow3g_ks + 16 + %%TGP1], %%TMP_XMM_0
+        jmp     %%clear_ks_uia2
+%%clear_ks_done_uia2:
+%endif
+
         ;; update init_done for valid initialized lanes
         mov     [state + _snow3g_init_done], WORD(init_lanes)
         bsf     WORD(%%LANE), WORD(init_lanes)
